@@ -33,6 +33,14 @@ pub enum Act {
     CloneDrop,
     /// spawn child script number s through the Spawner, continue
     Spawn(u8),
+    /// spawn child script number s and keep its Receiver in the shared slot (replacing the
+    /// previous one), continue
+    SpawnSlot(u8),
+    /// await the Receiver in the slot: pending until the child has finished, then take the value
+    AwaitSlot,
+    /// poll the Receiver in the slot once with the own waker and go on whatever it says (a
+    /// select-like probe: the task's waker stays registered although it no longer waits)
+    PeekSlot,
 }
 
 /// scripts children can run
@@ -65,6 +73,12 @@ struct Model {
     waiting: [Vec<usize>; 2],
     log: Vec<(usize, usize)>,
     received: BTreeSet<usize>,
+    /// task whose Receiver is in the slot, whether its value has been taken, last poller
+    slot: Option<usize>,
+    slot_taken: bool,
+    slot_waiter: Option<usize>,
+    /// (task, value) pairs taken from the slot
+    got: Vec<(usize, usize)>,
 }
 
 impl Model {
@@ -97,6 +111,12 @@ impl Model {
             let pc = self.tasks[t].pc;
             let Some(act) = self.tasks[t].script.get(pc).copied() else {
                 self.tasks[t].done = true;
+                // the result is sent: the task that polled the Receiver last is woken
+                if self.slot == Some(t) && !self.slot_taken {
+                    if let Some(w) = self.slot_waiter.take() {
+                        self.wake(w);
+                    }
+                }
                 return Some(true);
             };
             match act {
@@ -141,6 +161,31 @@ impl Model {
                     self.tasks[t].pc += 1;
                     self.spawn(CHILD_SCRIPTS[s as usize].to_vec());
                 }
+                Act::SpawnSlot(s) => {
+                    self.tasks[t].pc += 1;
+                    let id = self.spawn(CHILD_SCRIPTS[s as usize].to_vec());
+                    self.slot = Some(id);
+                    self.slot_taken = false;
+                    self.slot_waiter = None;
+                }
+                Act::AwaitSlot | Act::PeekSlot => {
+                    let Some(child) = self.slot.filter(|_| !self.slot_taken) else {
+                        self.tasks[t].pc += 1;
+                        continue;
+                    };
+                    if self.tasks[child].done {
+                        self.got.push((t, child * 10 + self.tasks[child].script.len()));
+                        self.slot_taken = true;
+                        self.tasks[t].pc += 1;
+                        continue;
+                    }
+                    self.slot_waiter = Some(t);
+                    if act == Act::PeekSlot {
+                        self.tasks[t].pc += 1;
+                        continue;
+                    }
+                    return Some(false);
+                }
             }
         }
     }
@@ -173,6 +218,9 @@ struct Shared {
     receivers: Vec<(usize, Receiver<usize>)>,
     finished: Vec<bool>,
     drops: usize,
+    slot: Option<(usize, Receiver<usize>)>,
+    slot_taken: bool,
+    got: Vec<(usize, usize)>,
 }
 
 struct TaskFut {
@@ -279,6 +327,42 @@ impl Future for TaskFut {
                     drop(w);
                     drop(w2);
                 }
+                Act::SpawnSlot(sidx) => {
+                    this.pc += 1;
+                    let child = new_task(&this.shared, CHILD_SCRIPTS[sidx as usize].to_vec());
+                    let id = child.id;
+                    let spawner = this.shared.borrow().spawner.clone().unwrap();
+                    // SAFETY: the future owns only 'static data (Rc to harness state)
+                    match unsafe { spawner.spawn(child) } {
+                        Ok(rx) => {
+                            let old = this.shared.borrow_mut().slot.replace((id, rx));
+                            this.shared.borrow_mut().slot_taken = false;
+                            drop(old);
+                        }
+                        Err(_) => this.shared.borrow_mut().errors.push("spawner dead".into()),
+                    }
+                }
+                Act::AwaitSlot | Act::PeekSlot => {
+                    let taken = this.shared.borrow().slot_taken;
+                    let slot = if taken { None } else { this.shared.borrow_mut().slot.take() };
+                    let Some((child, mut rx)) = slot else {
+                        this.pc += 1;
+                        continue;
+                    };
+                    let r = Pin::new(&mut rx).poll(cx);
+                    this.shared.borrow_mut().slot = Some((child, rx));
+                    match r {
+                        Poll::Ready(v) => {
+                            let mut s = this.shared.borrow_mut();
+                            s.got.push((this.id, v));
+                            s.slot_taken = true;
+                            drop(s);
+                            this.pc += 1;
+                        }
+                        Poll::Pending if act == Act::PeekSlot => this.pc += 1,
+                        Poll::Pending => break Poll::Pending,
+                    }
+                }
                 Act::Spawn(sidx) => {
                     this.pc += 1;
                     let child = new_task(&this.shared, CHILD_SCRIPTS[sidx as usize].to_vec());
@@ -316,6 +400,9 @@ impl Real {
             receivers: vec![],
             finished: vec![],
             drops: 0,
+            slot: None,
+            slot_taken: false,
+            got: vec![],
         }));
         Real { exec, shared }
     }
@@ -348,6 +435,9 @@ fn replay_history(system: &[Vec<Act>], hist: &[Drive]) -> Result<Model, String> 
             }
             if s.log != m.log {
                 return Err(format!("{what}: poll log {:?}, model {:?}", s.log, m.log));
+            }
+            if s.got != m.got {
+                return Err(format!("{what}: values taken from the shared Receiver (task, value) {:?}, model {:?}", s.got, m.got));
             }
             if real.exec.wake_count() != m.queue.len() {
                 return Err(format!("{what}: wake_count {} but model queue {:?}", real.exec.wake_count(), m.queue));
@@ -393,6 +483,14 @@ fn replay_history(system: &[Vec<Act>], hist: &[Drive]) -> Result<Model, String> 
                         continue;
                     }
                     let registered = s.channels.iter().any(|c| c.iter().any(|(x, _)| *x == t));
+                    // (a task awaiting the shared Receiver whose child has not finished is waiting too)
+                    // (also when another task has displaced its waker or taken the value meanwhile:
+                    // the wake-up it waits for has not happened; that the *right* task is woken when
+                    // the value arrives is decided by the lock-step comparison with the model)
+                    let awaiting_slot = matches!(mt.script.get(mt.pc), Some(Act::AwaitSlot));
+                    if awaiting_slot {
+                        continue;
+                    }
                     if !registered || s.signalled[t] != 0 {
                         return Err(format!("{what}: executor stalled but task {t} is neither finished nor waiting (registered={registered}, signalled={})", s.signalled[t]));
                     }
@@ -439,6 +537,8 @@ fn replay_history(system: &[Vec<Act>], hist: &[Drive]) -> Result<Model, String> 
         drop(old_channels);
         let old_rx = std::mem::take(&mut shared.borrow_mut().receivers);
         drop(old_rx);
+        let old_slot = shared.borrow_mut().slot.take();
+        drop(old_slot);
         let old_spawner = shared.borrow_mut().spawner.take();
         drop(old_spawner);
         let drops = shared.borrow().drops;
@@ -485,6 +585,12 @@ fn parse_act(s: &str) -> Act {
         Act::Signal(nums[0], s.contains("true"))
     } else if s.starts_with("CloneDrop") {
         Act::CloneDrop
+    } else if s.starts_with("SpawnSlot") {
+        Act::SpawnSlot(nums[0])
+    } else if s.starts_with("AwaitSlot") {
+        Act::AwaitSlot
+    } else if s.starts_with("PeekSlot") {
+        Act::PeekSlot
     } else {
         Act::Spawn(nums[0])
     }
@@ -559,6 +665,29 @@ pub fn run(tier: Tier) -> i32 {
         for b in &s3 {
             for c in &s3 {
                 systems.push(vec![a.clone(), b.clone(), c.clone()]);
+            }
+        }
+    }
+    // a Receiver shared by the tasks: spawned into a slot, awaited, probed, handed over
+    {
+        let rxalpha = [Act::SpawnSlot(1), Act::SpawnSlot(2), Act::AwaitSlot, Act::PeekSlot, Act::Yield, Act::WakeSelf, Act::Wait(1), Act::Signal(1, false)];
+        let s2 = scripts(2, &rxalpha);
+        for a in &s2 {
+            for b in &s2 {
+                if a.iter().chain(b.iter()).any(|x| matches!(x, Act::SpawnSlot(_))) && a.iter().chain(b.iter()).any(|x| matches!(x, Act::AwaitSlot | Act::PeekSlot)) {
+                    systems.push(vec![a.clone(), b.clone()]);
+                }
+            }
+        }
+        let s1 = scripts(1, &rxalpha);
+        for a in &s1 {
+            for b in &s1 {
+                for c in &s1 {
+                    let all = [a, b, c];
+                    if all.iter().any(|x| x.iter().any(|y| matches!(y, Act::SpawnSlot(_)))) && all.iter().any(|x| x.iter().any(|y| matches!(y, Act::AwaitSlot | Act::PeekSlot))) {
+                        systems.push(vec![a.clone(), b.clone(), c.clone()]);
+                    }
+                }
             }
         }
     }
